@@ -250,7 +250,20 @@ def h_owner(ctx):
               res is None or res.payload.server == "http://s2")
 
 
-HARNESSES = dict(step=h_step, crash=h_crash, interleave=h_interleave, owner=h_owner)
+def h_owner_dotted(ctx):
+    """institutions whose ORG / FID contain dots and differ only after the last dot must not share a cache file"""
+    log = []
+    org1, fid1 = ctx.choice("id1", [("msdw.com", "1235"), ("a.b", "1"), ("x", "1.5")])
+    org2, fid2 = ctx.choice("id2", [("msdw.com", "14137"), ("a.c", "1"), ("x", "1.7")])
+    fs, c1 = setup(ctx, log, org=org1, fid=fid1, url="http://s1")
+    p1 = Profile("http://s1", datetime.datetime(2020, 1, 5, 8, tzinfo=utils.UTC), "s1")
+    one_call(ctx, c1, log, p1)
+    c2 = OFXClient("http://s2", org=org2, fid=fid2)
+    res, sent, exc = one_call(ctx, c2, log, "UPTODATE")
+    ctx.check("institutions with different ORG/FID never share a cached profile", res is None and sent == [None])
+
+
+HARNESSES = dict(owner_dotted=h_owner_dotted, step=h_step, crash=h_crash, interleave=h_interleave, owner=h_owner)
 
 META = dict(
     bounds=dict(step="one request_profile call from an arbitrary valid pre-state (cache absent / complete profile with symbolic date), six server behaviours, symbolic dates and status codes: "
@@ -276,4 +289,5 @@ def instances(tier, seed):
     mk("crash", "crash", {})
     mk("interleave", "interleave", {}, max_paths=100000)
     mk("owner", "owner", {})
+    mk("owner_dotted", "owner_dotted", {})
     return out
